@@ -47,7 +47,7 @@ def listRemove (l : List Elem) (id : Nat) : List Elem := l.eraseP (·.id == id)
 
 /-- `elem.Value.(*Entry).value = v` -/
 def setVal (l : List Elem) (id v : Nat) : List Elem :=
-  l.map (fun e => if e.id == id then { e with val := v } else e)
+  l.map (fun e => if e.id = id then { e with val := v } else e)
 
 /-- `delete(m, key)` -/
 def mapDelete (m : List (Nat × Nat)) (key : Nat) : List (Nat × Nat) := m.filter (·.1 != key)
